@@ -168,14 +168,8 @@ def run_imputer_plan(plan):
             if not ms:
                 return viol("no-model-evaluation", "impute made no model evaluation", i)
             outs = [e[2] for e in ms]
-            if kind != "default":
-                if len(ms) != n:
-                    return viol("evaluation-count", "%d model evaluations for n_samples=%d" % (len(ms), n), i)
-                for j in range(n):
-                    if preds[j] != outs[j]:
-                        return viol("prediction-not-model-output", "prediction %d is %r, the model returned %r"
-                                    % (j, preds[j], outs[j]), i)
-            else:
+            # how many evaluations produce the n predictions is not part of the property (C15 states the budget)
+            if True:
                 for j in range(n):
                     if not any(preds[j] == o for o in outs):
                         return viol("prediction-not-model-output", "prediction %d = %r is not an output of the model on an "
